@@ -1,5 +1,6 @@
 import LdkModel.Driver.Util
 import LdkModel.Model.Restart
+import LdkModel.Model.Reconstruct
 namespace Ldk.Driver
 open Ldk.Restart
 
@@ -36,6 +37,63 @@ def showState (st : St) : String :=
   let mon := (st.world st.watch).mon
   s!"{m.latestId} {m.unblockedId} {csv m.inFlight} {m.nums.holder} {m.nums.cp} {m.nums.secret} {mon.nums.holder} {mon.nums.cp} {mon.nums.secret}"
 
+
+/-! reconstruction layer (Model/Reconstruct.lean) -/
+def parseSrc (s : String) : Option Src :=
+  match s.splitOn "." with
+  | [a, b] =>
+    if a.startsWith "p" then some (.prev (nat! (a.replace "p" "")) (nat! b))
+    else if a.startsWith "r" then some (.route (nat! (a.replace "r" "")) (nat! b)) else none
+  | _ => none
+def parseSrcs (s : String) : List Src := if s == "-" then [] else (s.splitOn ",").filterMap parseSrc
+def showSrc : Src → String
+  | .prev c i => s!"p{c}.{i}"
+  | .route p k => s!"r{p}.{k}"
+def parseMonHtlcs (s : String) : List MonHtlc :=
+  if s == "-" then [] else (s.splitOn ",").filterMap (fun x => match x.splitOn ":" with
+    | [a, b] => (parseSrc a).map (fun src => ⟨src, b == "1"⟩)
+    | _ => none)
+def parseWorldTok (s : String) : Option World :=
+  match s.splitOn "/" with
+  | [l, u, h, c, sc, fl, mi, mh, mc, ms] =>
+    some { mgr := { latestId := nat! l, unblockedId := nat! u, inFlight := uncsv fl, nums := ⟨nat! h, nat! c, nat! sc⟩ },
+           mon := { id := nat! mi, nums := ⟨nat! mh, nat! mc, nat! ms⟩ } }
+  | _ => none
+def parseChans : List String → Option (List ChanW × List String)
+  | id :: w :: be :: mon :: onch :: pend :: drop :: rest =>
+    if rest.length % 7 == 1 || rest.length == 0 then
+      (if rest.length ≤ 1 then some ([], rest) else parseChans rest).map (fun r =>
+        ({ id := nat! id, world := parseWorldTok w, monHtlcs := parseMonHtlcs mon, onchainFailed := parseSrcs onch,
+           balancesEmpty := be == "1", mgrPending := parseSrcs pend, mgrDropped := parseSrcs drop } :: r.1, r.2))
+    else none
+  | rest => some ([], rest)
+def parsePays (s : String) : List (Nat × PayRec) :=
+  if s == "-" then [] else (s.splitOn ",").filterMap (fun x => match x.splitOn ":" with
+    | [i, st, a, pr] => some (nat! i, { state := if st == "F" then .fulfilled else if st == "A" then .abandoned else .retryable,
+                                         privs := if pr == "-" then [] else (pr.splitOn ";").map nat!, autoRetry := a == "1" })
+    | _ => none)
+def sortStr (l : List String) : List String := (l.toArray.qsort (· < ·)).toList
+def joinOr (l : List String) : String := if l.isEmpty then "-" else ",".intercalate (sortStr l)
+def sortNat (l : List Nat) : List Nat := (l.toArray.qsort (· < ·)).toList
+def showRecon (n : NodeW) (ids : List Nat) : String :=
+  let cl := (claims n).map (fun c => s!"{showSrc c.src}@{c.downstream}:{if c.downstreamClosed then 1 else 0}")
+  let fl := (fails n).map (fun f => s!"{showSrc f.1}:{match f.2 with | .channelClosed => "C" | .onChainTimeout => "O"}")
+  let st := paysAfter n
+  let routeIds := (n.chans.flatMap (fun c => routesOf (c.monHtlcs.map (·.src)))).map (·.1)
+  let all := (sortNat (ids ++ routeIds)).eraseDups
+  let ps := all.filterMap (fun i => (st.get i).map (fun p =>
+    let prs := sortNat p.privs
+    s!"{i}:{match p.state with | .retryable => "R" | .fulfilled => "F" | .abandoned => "A"}:{if prs.isEmpty then "-" else ";".intercalate (prs.map toString)}"))
+  let ns := (st.evs.filter (fun e => match e with | .sent _ => true | _ => false)).length
+  let nf := (st.evs.filter (fun e => match e with | .failed _ => true | _ => false)).length
+  s!"claims={joinOr cl} fails={joinOr fl} pays={joinOr ps} evs=s{ns},f{nf}"
+def showBg (w : World) : String :=
+  let ev := bgEvents w
+  let muc := ev.filterMap (fun e => match e with | .updatesComplete h => some h | _ => none)
+  let rg := ev.filterMap (fun e => match e with | .regenerated i => some i | _ => none)
+  let first := match muc with | h :: _ => s!"muc:{h}" | [] => if rg.isEmpty then "none" else s!"regen:{csv (sortNat rg)}"
+  s!"{first} unblock:{if ev.contains .attemptUnblock then 1 else 0}"
+
 /-- c10.  ops:
       reload <n> (<latestId> <unblockedId> <holder> <cp> <revokedCp> <inflight> <monId> <monHolder> <monCp> <monMinSecret>)*n
           → `err` | `ok <outcome per channel>`          (Restart.reloadNode: the startup decision)
@@ -46,6 +104,9 @@ def showState (st : St) : String :=
       spendconf <matured 0/1> <pending FundingSpendConfirmation height | -> <best height> <number of HTLCs the real function failed>
           → `ok confs=<n>` | `INCONSISTENT`      (ClosedMon.confirmedForReload / confirmations)
       spendfail <matured> <height | -> <best> <a|d|o0|o1> <resolved to user 0/1> → true | false      (Restart.failedOnReload for one outbound HTLC)
+      recon <n> (<chan id> <world l/u/h/c/s/inflight/mi/mh/mc/ms | -> <monitor balances empty 0/1> <monitor HTLCs src:pre,..> <on-chain failed srcs> <channel pending srcs> <channel dropped srcs>)*n <payments id:R|F|A:auto:privs;..>
+          → `claims=.. fails=.. pays=.. evs=s<n>,f<n>`     (Restart.claims / fails / paysAfter; src = p<inbound chan>.<htlc id> | r<payment>.<session key>)
+      bgev <latestId> <unblockedId> <inflight> <monId> → `muc:<id> | regen:<ids> | none` `unblock:0/1`     (Restart.bgEvents of a resumed channel)
       state <key> → `<latest> <watch> <in-flight> <chan nums> <nums of the monitor at watch>` -/
 def c10 : Drv where
   σ := List (String × St)
@@ -64,6 +125,16 @@ def c10 : Drv where
         | none => (sts, "err")
         | some rs => (sts, "ok " ++ " ".intercalate (rs.map showOutcome))
       | none => (sts, "bad-op")
+    | "recon" :: nch :: rest =>
+      match parseChans rest with
+      | some (cs, [pays]) =>
+        if cs.length != nat! nch then (sts, "bad-op") else
+        let pl := parsePays pays
+        let n : NodeW := { chans := cs, queue := [], pays := fun i => pl.lookup i }
+        (sts, showRecon n (pl.map (·.1)))
+      | _ => (sts, "bad-op")
+    | ["bgev", l, u, fl, mi] =>
+      (sts, showBg { mgr := { latestId := nat! l, unblockedId := nat! u, inFlight := uncsv fl, nums := ⟨0, 0, 0⟩ }, mon := { id := nat! mi, nums := ⟨0, 0, 0⟩ } })
     | ["reconcile", q, dq, mons] =>
       (sts, s!"{showRefs (reconcile (refs q) (refs mons))} | {showRefs (decodeRefs (dedupDecode (toDecodeMap (refs dq)) (refs mons)))}")
     | ["spendconf", mt, sh, best, nfailed] =>
